@@ -12,14 +12,14 @@ import (
 // overrides generation).
 type TextSpec struct {
 	Seed   uint64 `json:"seed"`
-	Docs   int    `json:"docs"`             // number of documents
-	Bytes  int    `json:"bytes"`            // approximate total size
-	Big    int    `json:"big,omitempty"`    // index of one document that takes most of the bytes (-1/absent: evenly)
-	Term   string `json:"term"`             // "\n", "\r\n", "\r"
-	Indent int    `json:"indent"`           // 0 = one line per document
-	Wide   bool   `json:"wide,omitempty"`   // multi-byte, double-width and combining characters in strings
-	Long   bool   `json:"long,omitempty"`   // some lines far longer than an excerpt
-	Raw    string `json:"raw,omitempty"`    // explicit text (minimised cases)
+	Docs   int    `json:"docs"`           // number of documents
+	Bytes  int    `json:"bytes"`          // approximate total size
+	Big    int    `json:"big,omitempty"`  // index of one document that takes most of the bytes (-1/absent: evenly)
+	Term   string `json:"term"`           // "\n", "\r\n", "\r"
+	Indent int    `json:"indent"`         // 0 = one line per document
+	Wide   bool   `json:"wide,omitempty"` // multi-byte, double-width and combining characters in strings
+	Long   bool   `json:"long,omitempty"` // some lines far longer than an excerpt
+	Raw    string `json:"raw,omitempty"`  // explicit text (minimised cases)
 	HasRaw bool   `json:"has_raw,omitempty"`
 }
 
